@@ -105,6 +105,43 @@ _OPN = {
 
 
 
+STATE_TAGS = {"u", "I", "Idc", "F", "Fx", "carry"}
+
+
+def state_dependent(e):
+    return any(a[0] in STATE_TAGS for a in as_poly(e).all_atoms())
+
+
+def _smooth_exponent(b):
+    """x**b is smooth in x for every x: b a non-negative integer (a symbolic exponent is not known to be one)"""
+    if isinstance(b, Tens):
+        return all(_smooth_exponent(e) for e in b.data)
+    if isinstance(b, Poly):
+        b = b.as_number()
+        if b is None:
+            return False
+    if isinstance(b, bool):
+        return True
+    if isinstance(b, int):
+        return b >= 0
+    if isinstance(b, Fr):
+        return b.denominator == 1 and b >= 0
+    if isinstance(b, float):
+        return b >= 0 and float(b).is_integer()
+    return False
+
+
+def log_singular(it, node, kind, arg, only_state=False):
+    """C07: remember every primitive whose derivative is unbounded where its argument vanishes"""
+    sl = getattr(it.ctx, "singular_log", None)
+    if sl is None:
+        return
+    t = arg if isinstance(arg, Tens) else as_tens(num_to_poly(arg)) if not isinstance(arg, Poly) else as_tens(arg)
+    if only_state and not any(state_dependent(e) for e in t.data):
+        return
+    sl.append({"file": it.cur_file(), "line": getattr(node, "lineno", None), "fn": it.cur_fn(), "kind": kind, "arg": t, "src": ast.unparse(node)[:160] if node is not None else ""})
+
+
 def binop(interp, op, a, b, node):
     I = _I()
     name = _OPN.get(type(op))
@@ -129,6 +166,11 @@ def binop(interp, op, a, b, node):
         b = as_tens(b) if isinstance(b, (list, tuple)) else b
     if name == "matmul":
         return REG["jnp.matmul"](interp, [a, b], {}, node)
+    if getattr(interp.ctx, "singular_log", None) is not None and name in ("div", "pow") and (isinstance(b, (Tens, Poly)) or isinstance(a, (Tens, Poly))):
+        if name == "div" and isinstance(b, (Tens, Poly)):
+            log_singular(interp, node, "division", b, only_state=True)
+        elif name == "pow" and not _smooth_exponent(b) and isinstance(a, (Tens, Poly)):
+            log_singular(interp, node, "power", a)
     if isinstance(a, Tens) or isinstance(b, Tens):
         return T.ewise(lambda x, y: _scalar_binop(interp, name, x, y, node, force_poly=True), as_tens(_tp(a)), as_tens(_tp(b)))
     return _scalar_binop(interp, name, a, b, node)
@@ -659,7 +701,23 @@ def at_update(interp, proxy, kind, args, kwargs, node):
         D = len(sym_pos)
         sel = SO.dc_indicator(tuple(t.shape[ax] for ax, _ in sym_pos), D)
     else:
-        raise Unsupported(f".at index {idx_t} on symbolic axes")
+        # some symbolic axes indexed with 0, the others taken whole: on an rfftn spectrum (last symbolic axis halved,
+        # i.e. not of length N) position 0 along spatial axis j is the wavenumber k_j = 0
+        D = len(sym_pos)
+        last_len = as_poly(t.shape[sym_pos[-1][0]])
+        zero_axes = []
+        for j, (ax, it_) in enumerate(sym_pos):
+            if isinstance(it_, slice) and it_ == slice(None):
+                continue
+            if T._as_int(it_) == 0:
+                zero_axes.append(j)
+            else:
+                raise Unsupported(f".at index {idx_t} on symbolic axes")
+        if last_len == Poly.sym("N") or any(as_poly(t.shape[ax]) != Poly.sym("N") for ax, _ in sym_pos[:-1]):
+            raise Unsupported(f".at index {idx_t} selects part of the symbolic axes of an array that is not an rfftn spectrum")
+        sel = Poly.const(1)
+        for j in zero_axes:
+            sel = sel * alg.ind("eq", Poly.atom(("k", j, D, "half" if j == D - 1 else "full")), Poly())
     vt = as_tens(_tp(v))
     out = list(t.data)
     cs = T.cshape(t.shape)
@@ -939,7 +997,7 @@ def _sum(it, a, k, node):
     where = k.get("where")
     if where is not None:
         t = T.ewise(lambda x, w: x * w, t, _arr(where))
-    return T.reduce(t, axis, bool(k.get("keepdims", False)), _sum_fold, SO.sym_sum)
+    return T.reduce(t, axis, bool(k.get("keepdims", False)), _sum_fold, SO.sym_sum, SO.partial_sum)
 
 
 REG["jnp.nansum"] = _sum
@@ -975,7 +1033,7 @@ def _mean(it, a, k, node):
     def fold(xs):
         return _sum_fold(xs) / len(xs)
 
-    return T.reduce(t, axis, bool(k.get("keepdims", False)), fold, SO.sym_mean)
+    return T.reduce(t, axis, bool(k.get("keepdims", False)), fold, SO.sym_mean, SO.partial_mean)
 
 
 def _whole(name):
@@ -1026,6 +1084,7 @@ def _norm(it, a, k, node):
         raise Unsupported("norm with ord")
     sq = t.map(lambda e: e * e if alg.is_real(e) else alg.absval(e) ** 2)
     s = T.reduce(sq, axis, bool(k.get("keepdims", False)), _sum_fold, SO.sym_sum)
+    log_singular(it, node, "norm (sqrt of a sum of squares)", s)
     return s.map(alg.sqrt)
 
 
@@ -1039,7 +1098,15 @@ def _ew1(fn):
 REG["jnp.abs"] = _ew1(alg.absval)
 REG["jnp.absolute"] = REG["jnp.abs"]
 REG["jnp.exp"] = _ew1(alg.exp)
-REG["jnp.sqrt"] = _ew1(alg.sqrt)
+def _sing1(kind, fn):
+    def f(it, a, k, node):
+        log_singular(it, node, kind, _arr(a[0]))
+        return _arr(a[0]).map(fn)
+
+    return f
+
+
+REG["jnp.sqrt"] = _sing1("sqrt", alg.sqrt)
 REG["jnp.real"] = _ew1(alg.real)
 REG["jnp.imag"] = _ew1(alg.imag)
 REG["jnp.conj"] = _ew1(alg.conj)
@@ -1050,6 +1117,8 @@ REG["jnp.invert"] = _ew1(lambda e: 1 - e)
 REG["jnp.logical_not"] = REG["jnp.invert"]
 for _n in ("sin", "cos", "tan", "tanh", "log", "log10", "sign", "floor", "ceil", "rint", "trunc", "isnan", "isfinite", "arctan", "sinh", "cosh"):
     REG["jnp." + _n] = _ew1(lambda e, _n=_n: alg.fn(_n, e))
+for _n in ("log", "log10"):
+    REG["jnp." + _n] = _sing1(_n, lambda e, _n=_n: alg.fn(_n, e))
 
 
 @reg("jnp.round", "jnp.around")
@@ -1060,6 +1129,8 @@ def _round(it, a, k, node):
 
 @reg("jnp.power")
 def _power(it, a, k, node):
+    if not _smooth_exponent(a[1]):
+        log_singular(it, node, "power", _arr(a[0]))
     return T.ewise(lambda x, y: x**y, _arr(a[0]), _arr(a[1]))
 
 
